@@ -682,3 +682,112 @@ package vegeta
 //@   loop 2
 //@     invariant 0 <= i && i <= cap(ch) && received == i && spawned == cap(ch) && !held(&rngMu)
 //@     decreases cap(ch) - i
+
+// ---------------------------------------------------------------------------------- C07 C09 C16 (codecs)
+// CSV: the twelve documented columns, in the documented order and units; the decoder is the
+// column-by-column inverse. (README "Results", encode.go usage.)
+//@ func headerBytes
+//@   property C07
+//@   modifies nothing
+//@   ensures [nil-header-is-empty-column] h == nil ==> result == nil
+
+//@ func NewCSVEncoder$1
+//@   property C07 C09
+//@   returns (err)
+//@   requires [non-nil] r != nil && enc != nil
+//@   modifies *enc
+//@   ghost writes int
+//@   ghost flushes int
+//@   before call Write: assert [twelve-columns] len(arg1) == 12 ;
+//@        assert [col0-timestamp-unix-ns] MinInt64 <= r.Timestamp && r.Timestamp <= MaxInt64 ==> arg1[0] == fmtint(r.Timestamp, 10) ;
+//@        assert [col1-code] arg1[1] == fmtint(r.Code, 10) ;
+//@        assert [col2-latency-ns] arg1[2] == fmtint(r.Latency, 10) ;
+//@        assert [col3-bytes-out] arg1[3] == fmtint(r.BytesOut, 10) ;
+//@        assert [col4-bytes-in] arg1[4] == fmtint(r.BytesIn, 10) ;
+//@        assert [col5-error] arg1[5] == r.Error ;
+//@        assert [col6-body-base64] arg1[6] == b64(string(r.Body)) ;
+//@        assert [col7-attack] arg1[7] == r.Attack ;
+//@        assert [col8-seq] arg1[8] == fmtint(r.Seq, 10) ;
+//@        assert [col9-method] arg1[9] == r.Method ;
+//@        assert [col10-url] arg1[10] == r.URL ;
+//@        assert [one-record-per-call] writes == 0 ;
+//@        ghost writes = writes + 1
+//@   before call Flush: assert [flush-after-the-whole-record] writes == 1 && flushes == 0 ; ghost flushes = flushes + 1
+//@   ensures [one-whole-record-per-call] writes == 1 && (err == nil ==> flushes == 1)
+
+//@ func NewCSVDecoder$1
+//@   property C07 C09 C16
+//@   returns (err)
+//@   requires [non-nil] r != nil && dec != nil
+//@   requires [twelve-fields-per-record] csvFields(dec) == 12
+//@   modifies *r, *dec
+//@   ensures [timestamp] err == nil ==> parseint_ok(rec[0], 10, 64) && r.Timestamp == parseint(rec[0], 10)
+//@   ensures [code] err == nil ==> parseuint_ok(rec[1], 10, 16) && r.Code == parseuint(rec[1], 10)
+//@   ensures [latency] err == nil ==> parseint_ok(rec[2], 10, 64) && r.Latency == parseint(rec[2], 10)
+//@   ensures [bytes] err == nil ==> r.BytesOut == parseuint(rec[3], 10) && r.BytesIn == parseuint(rec[4], 10)
+//@   ensures [error-attack-method-url] err == nil ==> r.Error == rec[5] && r.Attack == rec[7] && r.Method == rec[9] && r.URL == rec[10]
+//@   ensures [body] err == nil ==> b64dec_ok(rec[6]) && string(r.Body) == b64dec(rec[6])
+//@   ensures [seq] err == nil ==> parseuint_ok(rec[8], 10, 64) && r.Seq == parseuint(rec[8], 10)
+//@   ensures [headers] err == nil && rec[11] != "" ==> mimeparse_okid(textid(rec[11])) && r.Headers == mimeparseid(textid(rec[11]))
+
+// Inverse pairs of the library (assumed) and the round trip they give for every scalar column.
+//@ axiom forall n int :: MinInt64 <= n && n <= MaxInt64 ==> parseint_ok(fmtint(n, 10), 10, 64) && parseint(fmtint(n, 10), 10) == n
+//@ axiom forall n int :: 0 <= n && n <= MaxUint64 ==> parseuint_ok(fmtint(n, 10), 10, 64) && parseuint(fmtint(n, 10), 10) == n
+//@ axiom forall n int :: 0 <= n && n <= 65535 ==> parseuint_ok(fmtint(n, 10), 10, 16)
+//@ axiom forall s string :: b64dec_ok(b64(s)) && b64dec(b64(s)) == s
+//@ lemma csv_roundtrip_scalars property C07
+//@   forall ts, code, lat, bout, bin, seq int; body string ::
+//@     MinInt64 <= ts && ts <= MaxInt64 && 0 <= code && code <= 65535 && MinInt64 <= lat && lat <= MaxInt64 && 0 <= bout && bout <= MaxUint64 && 0 <= bin && bin <= MaxUint64 && 0 <= seq && seq <= MaxUint64
+//@     ==> parseint(fmtint(ts, 10), 10) == ts && parseuint_ok(fmtint(code, 10), 10, 16) && parseuint(fmtint(code, 10), 10) == code && parseint(fmtint(lat, 10), 10) == lat
+//@         && parseuint(fmtint(bout, 10), 10) == bout && parseuint(fmtint(bin, 10), 10) == bin && parseuint(fmtint(seq, 10), 10) == seq && b64dec(b64(body)) == body
+
+//@ func (jsonResult).MarshalEasyJSON
+//@   trusted
+//@   requires w != nil
+//@   modifies *w
+//@ func (*jsonResult).UnmarshalEasyJSON
+//@   trusted
+//@   requires v != nil && l != nil
+//@   modifies *v, *l
+
+// JSON decoder: only a complete, newline-terminated line is ever handed to the unmarshaller; when the
+// line read fails (torn last line, end of stream) the function returns before touching *r.
+//@ func NewJSONDecoder$1
+//@   property C09 C16
+//@   returns (err)
+//@   requires [non-nil] r != nil && rd != nil
+//@   modifies *r, *rd
+//@   ghost readFailed bool
+//@   ghost lineComplete bool
+//@   ghost unmarshalled int
+//@   at call ReadBytes: ghost readFailed = (result1 != nil) ; ghost lineComplete = (result1 == nil && len(result0) >= 1 && result0[len(result0)-1] == 10)
+//@   before call UnmarshalEasyJSON: assert [only-whole-lines-are-decoded] !readFailed && lineComplete ; ghost unmarshalled = unmarshalled + 1
+//@   ensures [torn-line-is-an-error] readFailed ==> err != nil && unmarshalled == 0
+//@   ensures [result-untouched-on-read-error] readFailed ==> r.Seq == old(r.Seq) && r.Code == old(r.Code) && r.Timestamp == old(r.Timestamp) && r.Latency == old(r.Latency)
+//@              && r.BytesIn == old(r.BytesIn) && r.BytesOut == old(r.BytesOut) && r.Error == old(r.Error) && r.Attack == old(r.Attack) && r.Method == old(r.Method) && r.URL == old(r.URL)
+//@              && r.Body == old(r.Body) && r.Headers == old(r.Headers)
+//@   ensures [at-most-one-record-per-call] unmarshalled <= 1
+
+// JSON encoder: one record, its newline, one DumpTo per call; nothing is written when marshalling failed.
+//@ func NewJSONEncoder$1
+//@   property C09
+//@   returns (err)
+//@   requires [non-nil] r != nil
+//@   modifies jw
+//@   ghost marshalled int
+//@   ghost newline int
+//@   ghost dumps int
+//@   at call MarshalEasyJSON: ghost marshalled = marshalled + 1
+//@   before call RawByte: assert [newline-after-the-record] marshalled == 1 && arg1 == 10 && newline == 0 ; ghost newline = newline + 1
+//@   before call DumpTo: assert [whole-record-then-newline-then-one-write] marshalled == 1 && newline == 1 && dumps == 0 ; ghost dumps = dumps + 1
+//@   ensures [one-whole-record-per-call] marshalled == 1 && dumps <= 1 && (dumps == 1 ==> newline == 1)
+
+// gob: one Decode / Encode of the library per call (framing is the library's: not covered).
+//@ func NewDecoder$1
+//@   property C16
+//@   pragma mode safety
+//@   requires dec != nil
+//@ func NewEncoder$1
+//@   property C09
+//@   pragma mode safety
+//@   requires enc != nil
